@@ -22,6 +22,7 @@ KINDS = [
     'for [i, v] in [1] {\n    (fn () {\n        break\n    })()\n}',
     'fn area([w, h]) {\n    return w * h\n}\nprint(area([1, 2, 3]))', 'fn show({name}) {\n    return name\n}\nprint(show({}))', 'fn pair(a, [b, ..r]) {\n    return a\n}\nprint(pair(1, 2))',
     'fn wrap(v) {\n    return area2(v)\n}\nfn area2([w, h]) {\n    return w\n}\nprint(wrap([1]))', 'n2 := 1\nn2 += nope', 'lst[0] += nope', 'obj.a -= two(1)', 'n3 := 1\nn3 *= [1][3]',
+    'print($"a${1 +}b")', 'print($"${)}")', 'print($"${1 ` 2}")',
 ]
 HEAD = ['lst := [1, 2]', 'obj := {"a": 1, "f": fn (v) {', '    return v', '}}', 'fn two(a, b) {', '    return a', '}', 'fn rest1(a, ..r) {', '    return a', '}']
 
@@ -56,4 +57,5 @@ def templates(tier, seed=0):
 def role(v):
     t = v.get('template', ''); what = v.get('what', ''); asp = v['aspect']
     if asp == 'format' and 'EvalReturnExprFailed' in what: return 'return-expression-error-shows-internal-wrapper-names'
+    if asp == 'format' and v.get('ref') == 'error:slot-parse' and 'internal identifier' in what: return 'interpolation-slot-parse-error-shows-debug-structure'
     return 'errors:%s:%s:%s' % (t, asp, v['ref'])
